@@ -26,6 +26,14 @@ type c10Live struct {
 	StopNS    int64      `json:"stop_ns"` // 0: never cancelled (fatal scenarios)
 	LatNS     int64      `json:"write_latency_ns"`
 	Terminate bool       `json:"terminate"`
+	WriteDst  string     `json:"write_fault_dst,omitempty"` // unicast (default) or multicast (n=0 is the initial RA)
+}
+
+func (c c10Live) writeDst() string {
+	if c.WriteDst == "multicast" {
+		return "multicast"
+	}
+	return "unicast"
 }
 
 func (c c10Live) expectation() string {
@@ -37,8 +45,20 @@ func (c c10Live) expectation() string {
 		return "none"
 	case "timeouts-spread":
 		return "none" // never 5 in a row: every receive that times out fewer than 5 times is fine
-	case "read-syscall", "write-syscall", "link":
+	case "read-syscall", "link":
 		return "redial"
+	case "write-syscall":
+		if c.WriteDst == "multicast" && c.N == 0 {
+			// the initial RA of a (re)initialisation: the code deliberately treats its failure as fatal
+			// ("avoiding a needless start/error/restart loop"); whether that transmit error counts as
+			// recoverable is not settled by the statement -> either outcome, but never half-alive
+			return "either"
+		}
+		return "redial"
+	case "write-other":
+		if c.WriteDst == "multicast" && c.N == 0 {
+			return "fatal"
+		}
 	}
 	return "fatal"
 }
@@ -70,9 +90,9 @@ func c10LiveProp(t *testing.T, k *verifkit.Kit) func(c c10Live) error {
 		case "link":
 			events = append(events, advEvent{AtNS: c.FaultNS, Kind: "link"})
 		case "write-syscall":
-			lat = append(lat, latRule{Dst: "unicast", N: c.N, Err: "syscall"})
+			lat = append(lat, latRule{Dst: c.writeDst(), N: c.N, Err: "syscall"})
 		case "write-other":
-			lat = append(lat, latRule{Dst: "unicast", N: c.N, Err: "other"})
+			lat = append(lat, latRule{Dst: c.writeDst(), N: c.N, Err: "other"})
 		}
 		if c.LatNS > 0 {
 			lat = append(lat, latRule{Dst: "any", N: -1, NS: c.LatNS})
@@ -134,6 +154,17 @@ func c10LiveProp(t *testing.T, k *verifkit.Kit) func(c c10Live) error {
 		old.mu.Lock()
 		lastUse := old.lastUse
 		old.mu.Unlock()
+		if exp == "either" {
+			k.Unspecified("transmit error on the initial RA: recoverable or fatal")
+			if lastUse > fault+bound {
+				return verifkit.Violf("C10/old-connection-still-used", "fault at %v, old connection used at %v (bound %v)\n%s", fault, lastUse, fault+bound, tl)
+			}
+			redialed := len(dials) > 1 && dials[1] <= fault+bound
+			if !redialed && !(returned && retAt <= fault+bound) && !(c.StopNS > 0 && stopAt <= fault+bound) {
+				return verifkit.Violf("C10/half-alive-after-initial-ra-failure", "initial RA failed at %v: neither a re-dial nor a return within %v\n%s", fault, bound, tl)
+			}
+			return nil
+		}
 		switch exp {
 		case "none":
 			if len(conns) != 1 {
@@ -203,6 +234,7 @@ func c10GenLive(t *rapid.T) c10Live {
 	c.N = rapid.SampledFrom([]int{1, 2, 4, 5, 6, 9}).Draw(t, "n")
 	if strings.HasPrefix(c.Fault, "write-") {
 		c.N = rapid.IntRange(0, 3).Draw(t, "nth")
+		c.WriteDst = rapid.SampledFrom([]string{"unicast", "unicast", "multicast"}).Draw(t, "wdst")
 	}
 	c.FaultNS = rapid.SampledFrom([]int64{0, 1, s, 3 * s, 3*s + 1, 4 * s}).Draw(t, "faultat")
 	if rapid.Bool().Draw(t, "anyfault") {
@@ -245,10 +277,16 @@ func c10Matrix(yield func(c10Live) bool) {
 			if f == "timeouts-spread" {
 				ns = []int{2, 3, 6}
 			}
+			if strings.HasPrefix(f, "write-") {
+				ns = []int{0, 1, 100, 101} // 100+n: the n-th multicast write (100 = the initial RA)
+			}
 			for _, n := range ns {
 				for _, busy := range []bool{false, true} {
 					for _, stop := range []int64{0, 30 * s} {
 						c := c10Live{Monitor: mon, Fault: f, N: n, FaultNS: 5 * s, StopNS: stop}
+						if strings.HasPrefix(f, "write-") && n >= 100 {
+							c.N, c.WriteDst = n-100, "multicast"
+						}
 						if f == "timeouts-spread" {
 							c.StopNS = 5*s + int64(n+2)*2*s
 						}
